@@ -169,7 +169,7 @@ def run_correspondence(res, cfg, rundir):
     env = dict(cfg.get("env", {}))
     try:
         rc, out = sh([binp, "emit", cfg["harness_prop"], str(res.seed), res.tier, rundir],
-                     timeout=cfg.get("emit_timeout", 900 if res.tier == "quick" else 5400), env=env)
+                     timeout=cfg.get("emit_timeout", 1800 if res.tier == "quick" else 10800), env=env)
     except subprocess.TimeoutExpired:
         rc, out = -999, "emit timed out"
         subprocess.run(["pkill", "-f", f"p2h emit {cfg['harness_prop']} "])
@@ -179,7 +179,7 @@ def run_correspondence(res, cfg, rundir):
             last = open(os.path.join(rundir, "req.txt")).read().rstrip("\n").split("\n")[-1]
             stage = ""
             try:
-                stage = open(os.path.join(rundir, "stage.txt")).read()
+                stage = open(os.path.join(rundir, "stage.txt")).read().rstrip(" ")
             except Exception:
                 pass
             if stage == "case":
